@@ -6,6 +6,7 @@ Exceptions / return / break / continue go through the continuations in ctx.
 A continuation returns only when the whole rest of that path has been explored
 (depth first), so collectors placed at joins see every incoming path.
 """
+import os
 import ast
 import sys
 import types
@@ -20,7 +21,7 @@ from .state import State, new_oid
 
 sys.setrecursionlimit(200000)
 
-REPO = "/repo"
+REPO = os.environ.get("PYVC_REPO", "/repo")   # scratch copies for seeded-change evaluation only; registered commands never set it
 
 
 class Ctx(object):
